@@ -127,7 +127,7 @@ pub fn c09(ctx: &GCtx) -> i32 {
         return code;
     }
     let tg = targets(ctx);
-    let per_type = ctx.tier.pick(300, 5000);
+    let per_type = ctx.tier.pick(300, 2000);
     let prealloc_open = ctx.findings.is_open("C09", "async-count-prealloc");
     let prealloc_hits = std::cell::Cell::new(0u64);
     let swallow_hits = std::cell::Cell::new(0u64);
